@@ -44,80 +44,107 @@ ProtoOf(r) == IF Has(r, "proto") THEN r.proto
               ELSE ""
 
 \* ---- endpoints -----------------------------------------------------------------------------------
-EpAt(w, ip) == { e \in SetOf(w.eps) : \E i \in DOMAIN e.nets : ContainsAddr(e.nets[i], ip) }
+\* endpoints are referred to by their position in w.eps
+EpAt(w, ip) == { i \in DOMAIN w.eps : \E k \in DOMAIN w.eps[i].nets : ContainsAddr(w.eps[i].nets[k], ip) }
 ProfilesNamed(w, n) == { p \in SetOf(w.profiles) : p.name = n }
 ProfileLabels(w, n) == IF ProfilesNamed(w, n) = {} THEN NoLabels ELSE (CHOOSE p \in ProfilesNamed(w, n) : TRUE).labels
 \* the parents' label prefixes (pcns. / pcsa.) are disjoint, so the precedence among parents is immaterial
 EffL(w, e) == EffLabels(e.labels, [i \in DOMAIN e.profiles |-> ProfileLabels(w, e.profiles[i])], FALSE)
+\* Index(w): the effective labels of every endpoint.  Every operator below takes it as `ix` so that a caller
+\* can compute it once (TLCEval); the plain forms at the end of the module compute it themselves.
+Index(w) == [eff |-> [i \in DOMAIN w.eps |-> EffL(w, w.eps[i])]]
 
 \* ---- rules -----------------------------------------------------------------------------------------
 InSomeNet(nets, ip) == \E i \in DOMAIN nets : ContainsAddr(nets[i], ip)
-SelHolds(w, sel, ip) == \E e \in EpAt(w, ip) : Eval(sel, EffL(w, e), NoCT)
+SelHolds(w, ix, sel, ip) == \E i \in EpAt(w, ip) : Eval(sel, ix.eff[i], NoCT)
 
-PortsMatch(w, r, dstip, port, proto) ==
-    \/ r.dstPorts = <<>>
-    \/ \E i \in DOMAIN r.dstPorts :
-          LET pp == r.dstPorts[i] IN
-          IF Has(pp, "name")
-          THEN \E e \in EpAt(w, dstip) :
-                  /\ Has(r, "dstSel") => Eval(r.dstSel, EffL(w, e), NoCT)
-                  /\ \E j \in DOMAIN e.ports :
-                        e.ports[j].name = pp.name /\ ProtoOf(e.ports[j]) = ProtoOf(r) /\ e.ports[j].port = port
-          ELSE pp.lo <= port /\ port <= pp.hi
+\* the address half of a rule ...
+RuleAddr(w, ix, r, src, dst) ==
+    /\ r.srcNets = <<>> \/ InSomeNet(r.srcNets, src)
+    /\ r.dstNets = <<>> \/ InSomeNet(r.dstNets, dst)
+    /\ ~InSomeNet(r.notSrcNets, src)
+    /\ ~InSomeNet(r.notDstNets, dst)
+    /\ Has(r, "srcSel") => SelHolds(w, ix, r.srcSel, src)
+    /\ Has(r, "dstSel") => SelHolds(w, ix, r.dstSel, dst)
+
+\* ... and its protocol / port half
+RulePorts(w, ix, r, dst, port, proto) ==
+    /\ ProtoOf(r) = "" \/ ProtoOf(r) = proto
+    /\ \/ r.dstPorts = <<>>
+       \/ \E i \in DOMAIN r.dstPorts :
+             LET pp == r.dstPorts[i] IN
+             IF Has(pp, "name")
+             THEN \E k \in EpAt(w, dst) :
+                     /\ Has(r, "dstSel") => Eval(r.dstSel, ix.eff[k], NoCT)
+                     /\ \E j \in DOMAIN w.eps[k].ports :
+                           LET ep == w.eps[k].ports[j] IN ep.name = pp.name /\ ProtoOf(ep) = ProtoOf(r) /\ ep.port = port
+             ELSE pp.lo <= port /\ port <= pp.hi
 
 \* conn = [src, dst: addr, port: 1..65535, proto \in PortProtocols]
-RuleMatch(w, r, conn) ==
-    /\ ProtoOf(r) = "" \/ ProtoOf(r) = conn.proto
-    /\ r.srcNets = <<>> \/ InSomeNet(r.srcNets, conn.src)
-    /\ r.dstNets = <<>> \/ InSomeNet(r.dstNets, conn.dst)
-    /\ ~InSomeNet(r.notSrcNets, conn.src)
-    /\ ~InSomeNet(r.notDstNets, conn.dst)
-    /\ Has(r, "srcSel") => SelHolds(w, r.srcSel, conn.src)
-    /\ Has(r, "dstSel") => SelHolds(w, r.dstSel, conn.dst)
-    /\ PortsMatch(w, r, conn.dst, conn.port, conn.proto)
+RuleMatch(w, ix, r, conn) == RuleAddr(w, ix, r, conn.src, conn.dst) /\ RulePorts(w, ix, r, conn.dst, conn.port, conn.proto)
 
-\* index of the first matching rule, 0 if none
-FirstMatch(w, rules, conn) ==
-    LET idx == { i \in DOMAIN rules : RuleMatch(w, rules[i], conn) }
-    IN IF idx = {} THEN 0 ELSE CHOOSE i \in idx : \A j \in idx : i <= j
+LOCAL MinOf(S) == CHOOSE i \in S : \A j \in S : i <= j
 
 \* ---- policies ----------------------------------------------------------------------------------------
 PolTypes(pol) == IF pol.types = <<>> THEN {"ingress", "egress"} ELSE SetOf(pol.types)
 RulesOf(x, dir) == IF dir = "ingress" THEN x.inb ELSE x.outb
 Ord(pol) == IF Has(pol, "order") THEN pol.order ELSE 2147483647          \* no order = last
-Applies(w, pol, e, dir) == dir \in PolTypes(pol) /\ Eval(pol.sel, EffL(w, e), NoCT)
+Applies(ix, pol, e, dir) == dir \in PolTypes(pol) /\ Eval(pol.sel, ix.eff[e], NoCT)
 
-ProfileVerdict(w, e, dir, conn) ==
-    LET hit(i) == IF ProfilesNamed(w, e.profiles[i]) = {} THEN 0
-                  ELSE FirstMatch(w, RulesOf(CHOOSE p \in ProfilesNamed(w, e.profiles[i]) : TRUE, dir), conn)
-        hits == { i \in DOMAIN e.profiles : hit(i) # 0 }
-    IN IF hits = {} THEN FALSE
-       ELSE LET i == CHOOSE k \in hits : \A j \in hits : k <= j
-                pr == CHOOSE p \in ProfilesNamed(w, e.profiles[i]) : TRUE
-            IN RulesOf(pr, dir)[hit(i)].action = "allow"
+\* profiles of endpoint e in sequence, first matching rule decides, no match = deny.  Generic form:
+\* AddrOK(q, j) / PortOK(q, j) - the two halves of rule j (direction dir) of profile w.profiles[q] match.
+ProfIdx(w, n) == { q \in DOMAIN w.profiles : w.profiles[q].name = n }
+ProfileVerdictG(w, e, dir, AddrOK(_, _), PortOK(_, _)) ==
+    LET profs == w.eps[e].profiles
+        hit(i) == IF ProfIdx(w, profs[i]) = {} THEN {}           \* a profile that does not exist has no rules
+                  ELSE LET q == MinOf(ProfIdx(w, profs[i]))
+                       IN { j \in DOMAIN RulesOf(w.profiles[q], dir) : AddrOK(q, j) /\ PortOK(q, j) }
+        hits == { i \in DOMAIN profs : hit(i) # {} }
+    IN IF hits = {} THEN "deny"
+       ELSE LET i == MinOf(hits)
+                q == MinOf(ProfIdx(w, profs[i]))
+            IN IF RulesOf(w.profiles[q], dir)[MinOf(hit(i))].action = "allow" THEN "allow" ELSE "deny"
+ProfileVerdict(w, ix, e, dir, conn) ==
+    ProfileVerdictG(w, e, dir,
+                    LAMBDA q, j : RuleAddr(w, ix, RulesOf(w.profiles[q], dir)[j], conn.src, conn.dst),
+                    LAMBDA q, j : RulePorts(w, ix, RulesOf(w.profiles[q], dir)[j], conn.dst, conn.port, conn.proto))
 
-\* the set of actions of the deciding rule(s): the first matching rule of the applicable policies with the
-\* lowest Order that have a matching rule (policies of equal Order are ordered by name, which this
-\* specification does not model: it is only well defined when they agree - see Decidable)
-Deciding(w, pols, e, dir, conn) ==
-    LET app == { i \in DOMAIN pols : Applies(w, pols[i], e, dir) }
-        hit(i) == FirstMatch(w, RulesOf(pols[i], dir), conn)
-        hits == { i \in app : hit(i) # 0 }
-        first == { i \in hits : \A j \in hits : Ord(pols[i]) <= Ord(pols[j]) }
-    IN [applies |-> app # {}, actions |-> { RulesOf(pols[i], dir)[hit(i)].action : i \in first }]
+\* The verdict of the policies of the tier for one endpoint and direction, in generic form:
+\* App(i) - policy i applies to the endpoint for dir; AddrOK(i, j) / PortOK(i, j) - the two halves of rule j of
+\* policy i match.  Result: "none" (no policy applies: profiles decide), "allow", "deny" (a deny rule, or no
+\* rule matched: end of tier), or "ambiguous": policies of equal Order are ordered by name, which this
+\* specification does not model - it is only well defined when their first matching rules agree.
+TierVerdictG(pols, dir, App(_), AddrOK(_, _), PortOK(_, _)) ==
+    LET app == { i \in DOMAIN pols : App(i) }
+        hit(i) == { j \in DOMAIN RulesOf(pols[i], dir) : AddrOK(i, j) /\ PortOK(i, j) }
+        hits == { i \in app : hit(i) # {} }
+        first == { i \in hits : \A k \in hits : Ord(pols[i]) <= Ord(pols[k]) }
+        actions == { RulesOf(pols[i], dir)[MinOf(hit(i))].action : i \in first }
+    IN IF app = {} THEN "none"
+       ELSE IF actions = {} THEN "deny"
+       ELSE IF actions = {"allow"} THEN "allow"
+       ELSE IF actions = {"deny"} THEN "deny"
+       ELSE "ambiguous"
 
-Verdict(w, pols, e, dir, conn) ==
-    LET d == Deciding(w, pols, e, dir, conn)
-    IN IF ~d.applies THEN ProfileVerdict(w, e, dir, conn)
-       ELSE d.actions = {"allow"}                                  \* {} = end-of-tier deny
+TierVerdict(w, ix, pols, e, dir, conn) ==
+    TierVerdictG(pols, dir,
+                 LAMBDA i : Applies(ix, pols[i], e, dir),
+                 LAMBDA i, j : RuleAddr(w, ix, RulesOf(pols[i], dir)[j], conn.src, conn.dst),
+                 LAMBDA i, j : RulePorts(w, ix, RulesOf(pols[i], dir)[j], conn.dst, conn.port, conn.proto))
 
-Allowed(w, pols, conn) ==
-    /\ \A e \in EpAt(w, conn.src) : Verdict(w, pols, e, "egress", conn)
-    /\ \A e \in EpAt(w, conn.dst) : Verdict(w, pols, e, "ingress", conn)
+\* "allow" / "deny" / "ambiguous"
+Verdict(w, ix, pols, e, dir, conn) ==
+    LET t == TierVerdict(w, ix, pols, e, dir, conn)
+    IN IF t = "none" THEN ProfileVerdict(w, ix, e, dir, conn) ELSE t
 
-Decidable(w, pols, conn) ==
-    /\ \A e \in EpAt(w, conn.src) : Cardinality(Deciding(w, pols, e, "egress", conn).actions) <= 1
-    /\ \A e \in EpAt(w, conn.dst) : Cardinality(Deciding(w, pols, e, "ingress", conn).actions) <= 1
+\* the verdicts of all the endpoints the connection passes
+Verdicts(w, ix, pols, conn) ==
+    { Verdict(w, ix, pols, e, "egress", conn) : e \in EpAt(w, conn.src) }
+    \cup { Verdict(w, ix, pols, e, "ingress", conn) : e \in EpAt(w, conn.dst) }
+
+\* plain forms
+Decidable(w, pols, conn) == "ambiguous" \notin Verdicts(w, Index(w), pols, conn)
+Allowed(w, pols, conn) == Verdicts(w, Index(w), pols, conn) \subseteq {"allow"}
 
 \* ---- objects that have a meaning in this specification ------------------------------------------------
 \* (anything else produced by the converter is rejected: its meaning would be outside what was specified)
